@@ -189,6 +189,31 @@ func (m *omap) findSym(fr *frame, k value) int {
 	if m == nil {
 		return -1
 	}
+	if ks, isInt := k.(symInt); isInt {
+		// symbolic integer key: one fork per present key, else absent
+		for i := range m.ents {
+			e := &m.ents[i]
+			if !e.live {
+				continue
+			}
+			if _, esym := e.key.(symInt); esym {
+				fr.i.px.abort("unsupported", "symbolic integer keys on both sides of a map lookup")
+			}
+			eq := symEq(fr, m.keyType, ks, e.key)
+			switch b := eq.(type) {
+			case bool:
+				if b {
+					return i
+				}
+			case symBool:
+				fr.noteSymBranch()
+				if fr.i.px.forkBool(b.t) {
+					return i
+				}
+			}
+		}
+		return -1
+	}
 	_, ksym := k.(*rope)
 	if !ksym {
 		if i := m.find(k); i >= 0 {
@@ -235,6 +260,13 @@ func (m *omap) lookupSym(fr *frame, k value) (value, bool) {
 }
 
 func (m *omap) insertSym(fr *frame, k, v value) {
+	if _, isInt := k.(symInt); isInt {
+		if i := m.findSym(fr, k); i >= 0 {
+			m.ents[i].val = v
+			return
+		}
+		fr.i.px.abort("unsupported", "inserting a new symbolic integer map key")
+	}
 	if i := m.findSym(fr, k); i >= 0 {
 		m.ents[i].val = v
 		return
